@@ -53,6 +53,7 @@ def run(chk):
     chk.section("scope", lambda: l1(chk))
     chk.section("places", lambda: l345(chk))
     chk.section("cross-block", lambda: l6(chk))
+    chk.section("borrow-shadowing", lambda: borrow_shadowing(chk))
     for i in range(NCH):
         chk.section(f"bounded-{i}", lambda i=i: bounded(chk, i))
     chk.expected_min_obligations = 40
@@ -556,4 +557,118 @@ for off in range(0, len(progs), 100):
             bad = {"source": source(0, sig, prog), "reference": want, "check": got, "info": info}
     if bad: break
 print(json.dumps({"violates": bad is not None, "evaluations": n, "witness": bad}))
+'''
+
+
+# ------------------------------------------------------------------------------ L7
+def borrow_shadowing(chk, tag=""):
+    """BBLinearityChecker.visit_Assign: a borrowed parameter may not be re-bound — the callee hands back
+    whatever its parameter NAME is bound to at the end, so a re-binding would replace the caller's value
+    and lose the in-place updates.  The check must look at EVERY place the assignment target binds: the
+    plain target, and the names inside tuple / array / iterable unpacking patterns (left, starred, right,
+    nested) — `xs, n = ...` and `for xs in ...` (desugared to unpacking) re-bind as much as `xs = ...`.
+    Raises BorrowShadowedError iff some bound place is a borrowed function input.  Shared with C07."""
+    e = mk_engine(chk)
+    e.func_info(LC, "BBLinearityChecker.visit_Assign")
+    m = e.module(LC)
+    install_errors(e)
+    e.models[f"{ERR}:BorrowShadowedError.Rename"] = lambda it2, a, k: "NOTE"
+    NM = "guppylang_internals.nodes"
+    SHAPES = ["P", "T(a|-|)", "T(X|-|)", "T(a|-|X)", "T(a|X|b)", "T(a,X|-|)", "A(a|-|X)", "T(T(a|-|X)|-|b)", "T(a|-|T(b|X|))", "T(a|b|c)", "O", "T(a|-|O)"]
+    for shape in SHAPES:
+        def t(it, shape=shape):
+            w = world(e, it, {0: (False, True)})
+            PN, UP, TU, AU = (it.lookup_global(e.module(NM), k) for k in ("PlaceNode", "UnpackPattern", "TupleUnpack", "ArrayUnpack"))
+            ty = w["leaf"](0)
+            X = mk_var(w, "xs", ty, flags=w["inout"])         # borrowed parameter
+            O = mk_var(w, "ys", ty, flags=w["nof"])           # owned parameter
+            loc = {n_: mk_var(w, n_, ty) for n_ in "abc"}
+
+            def pn(c):
+                v = X if c == "X" else O if c == "O" else X if c == "P" else loc[c]
+                return SObj(PN, {"place": v})
+
+            def parse(sh):
+                sh = sh.strip()
+                if sh in ("P", "X", "O") or sh in loc:
+                    return pn(sh)
+                kind, body = sh[0], sh[2:-1]
+                parts, depth, cur = [], 0, ""
+                for ch in body:
+                    if ch == "(":
+                        depth += 1
+                    if ch == ")":
+                        depth -= 1
+                    if ch == "|" and depth == 0:
+                        parts.append(cur); cur = ""
+                    else:
+                        cur += ch
+                parts.append(cur)
+
+                def lst(x):
+                    out, depth, cur = [], 0, ""
+                    for ch in x:
+                        if ch == "(":
+                            depth += 1
+                        if ch == ")":
+                            depth -= 1
+                        if ch == "," and depth == 0:
+                            out.append(cur); cur = ""
+                        else:
+                            cur += ch
+                    if cur:
+                        out.append(cur)
+                    return [parse(y) for y in out]
+                pat = SObj(UP, {"left": lst(parts[0]), "starred": None if parts[1] in ("-", "") else parse(parts[1]), "right": lst(parts[2])})
+                return SObj(TU if kind == "T" else AU, {"pattern": pat})
+            target = parse(shape)
+            BB = it.lookup_global(m, "BBLinearityChecker")
+            ck = SObj(BB, {"func_inputs": {it.getattr(X, "id"): X, it.getattr(O, "id"): O}})
+            ck.fields["visit"] = Builtin("visit", lambda n_: None)
+            ck.fields["_check_assign_targets"] = Builtin("_check_assign_targets", lambda ts: None)
+            node = SObj(ClassVal("Assign", builtin=True), {"value": "VALUE", "targets": [target]})
+            f, _ = BB.lookup("visit_Assign")
+            return it.call(f, [ck, node], {})
+        paths = e.explore(t)
+
+        def post(p, shape=shape):
+            want = "X" in shape or shape == "P"
+            if want:
+                return z3.BoolVal(p.kind == "raise" and raised_kind(p) == "BorrowShadowedError")
+            return z3.BoolVal(p.kind == "return")
+        chk.prove_paths(f"{tag}visit_Assign[target {shape}]:BorrowShadowedError<=>some-place-bound-by-the-target-is-a-borrowed-parameter(X; P = plain target; O = owned parameter)", paths, post,
+                        func=f"{LC}:BBLinearityChecker.visit_Assign", replay=lambda m_: {"script": REPLAY_SHADOW, "input": {}})
+    chk.use_engine(e)
+
+
+REPLAY_SHADOW = r'''
+import guppy_plainbool
+import tempfile, importlib.util, os, sys, shutil
+from guppylang_internals.error import GuppyError
+src = """from guppylang import guppy
+from guppylang.std.builtins import array, result
+@guppy
+def callee(xs: array[int, 3], c: bool) -> None:
+    xs[0] = 11
+    if c:
+        xs, n = array(7, 8, 9), 1
+        xs[1] = n
+@guppy
+def main() -> None:
+    a = array(1, 2, 3)
+    callee(a, True)
+    result("a0", a[0]); result("a1", a[1]); result("a2", a[2])
+"""
+d = tempfile.mkdtemp(dir=os.environ.get("TMPDIR", "/var/tmp")); fn = os.path.join(d, "replay_c06s.py"); open(fn, "w").write(src)
+spec = importlib.util.spec_from_file_location("replay_c06s", fn); m = importlib.util.module_from_spec(spec); sys.modules["replay_c06s"] = m
+try:
+    spec.loader.exec_module(m)
+    try:
+        m.main.check(); out = {"violates": True, "observed": "accepted", "required": "re-binding the borrowed parameter xs inside an unpacking assignment must be rejected (BorrowShadowedError)"}
+    except GuppyError as ex:
+        out = {"violates": False, "observed": "rejected: " + type(ex.error).__name__}
+except Exception as ex:
+    out = {"violates": False, "error": repr(ex)[:300]}
+shutil.rmtree(d, ignore_errors=True)
+print(json.dumps(out))
 '''
